@@ -9,7 +9,7 @@ from mirsym.lib import MapV
 # kin = k+in ; kis = ki+s | k+is ; min = min | m+in
 PREFIXES = ['k', 'ki', 'm']
 STEMS = ['s', 'm', 'in', 'ins', 'min', 'is', 'ks', 'ms', 'K']
-QUERIES = ['s', 'ks', 'ms', 'kis', 'min', 'mins', 'kin', 'kins', 'kmin', 'mm', 'ss', 'K', 'Ks', 'kks', 'mis', 'x', 'ans', '_']
+QUERIES = ['s', 'ks', 'ms', 'kis', 'min', 'mins', 'kin', 'kins', 'kmin', 'mm', 'ss', 'K', 'Ks', 'kks', 'mis', 'x', 'ans', '_', 'ANS', 'Ans', 'aNs', '__']
 
 
 def build_registry(ex, I, stems, prefixes, tag=''):
@@ -132,6 +132,7 @@ class Lookup(Harness):
     def case(self, ctx, vals, label):
         c = Harness.case(self, ctx, vals, label)
         c['inputs']['q'] = ctx['q']
+        c['inputs']['previous_result None/Some'] = int(ctx['has_prev'])
         return c
 
     def native(self, inputs, label):
